@@ -168,6 +168,7 @@ static void stage_corpus(Run &R) {
     }
 }
 
+#ifndef VF_FUZZ
 int main(int argc, char **argv) {
     Run R; R.a = parse_args(argc, argv); R.prop = "C03";
     install_death(R.a);
@@ -185,3 +186,7 @@ int main(int argc, char **argv) {
     else { fprintf(stderr, "unknown stage %s\n", R.a.stage.c_str()); return 2; }
     return finish(R);
 }
+#else
+VF_FUZZ_TARGET("C03", nullptr, [](Run &R, const uint8_t *d, size_t n) -> std::optional<Failure> {
+    Bytes l = fuzz_bytes(d, n); R.sample("fuzz", show(l.substr(0, 80)), 4); return check_one(R, l); })
+#endif
